@@ -32,8 +32,20 @@ def run(ck):
     ck.cov["frame_cases_total"], ck.cov["frame_cases_replayed"], ck.cov["ts_records"] = total, len(cases), n
     ck.cov["exhaustive"] = not q
     ck.count(len(cases), (json.dumps(c) for c in cases))
+    # the stream as it is written for HLS: packetisers -> segment generator (audio batched per ~100 ms), with the
+    # parameter sets in the SDP or arriving after the packetiser was built, at three positions of the time line
+    trh = os.path.join(ck.tmp, "c09_hls.ndjson")
+    outh = os.path.join(ck.tmp, "c09_hls_out.json")
+    ck.run_driver("./c09", "^TestTsHls$", {"VERIF_IN": ck.write_lines("c09_in2.ndjson", cases[:600]), "VERIF_OUT": trh, "VERIF_OUT2": outh}, timeout=1200)
+    resh = ck.read_result(outh)
+    nh = sum(1 for _ in open(trh))
+    rth = ck.tlc("tsout", "TsOut", "TsOut.cfg", workers=1, env={"VERIF_TRACE": trh}, label="acceptance of %d streams through the HLS segment generator (%d segments)" % (nh, resh["segments"]), timeout=900)
+    if rth.distinct != nh + 1 or nh != resh["runs"]:
+        raise Infra("HLS-path validation consumed %d of %d" % (rth.distinct - 1, nh))
+    ck.cov["traces_validated_against_impl"] += nh
+    ck.cov["hls_path"] = resh
     seen = set()
-    for b in rt.printed("@BAD"):
+    for b in rt.printed("@BAD") + rth.printed("@BAD"):
         if b["why"] in seen:
             continue
         seen.add(b["why"])
@@ -46,7 +58,7 @@ def run(ck):
 
 
 META = {
-    "text": "TsCases.tla enumerates the packetiser's input space (every payload size 1..600 - all residues modulo 184 with and without the key-frame adaptation field and with 14/19-byte PES headers - and sizes around the 16-bit PES length limit, x key / non-key / audio x PTS=DTS / PTS!=DTS x timestamps 0, small, just below 2^33): 11k cases (quick replays a seeded 2640). The real mpegts.Muxer + Writer produce the stream; an independent TS/PSI/PES/ADTS/Annex-B demultiplexer turns it into per-packet and per-PES records; TLC validates them against the acceptor TsOut.tla (188-byte packets, PAT/PMT first with CRC and PIDs, continuity, unit starts, adaptation-field arithmetic, PES length, PTS/DTS, random access + PCR on key frames, access-unit prefix, byte fidelity).",
+    "text": "TsCases.tla enumerates the packetiser's input space (every payload size 1..600 - all residues modulo 184 with and without the key-frame adaptation field and with 14/19-byte PES headers - and sizes around the 16-bit PES length limit, x key / non-key / audio x PTS=DTS / PTS!=DTS x timestamps 0, small, just below 2^33): 11k cases (quick replays a seeded 2640). The real mpegts.Muxer + Writer produce the stream; an independent TS/PSI/PES/ADTS/Annex-B demultiplexer turns it into per-packet and per-PES records; TLC validates them against the acceptor TsOut.tla (188-byte packets, PAT/PMT first with CRC and PIDs, continuity, unit starts, adaptation-field arithmetic, PES length, PTS/DTS, random access + PCR on key frames, access-unit prefix, byte fidelity). A second driver sends 6-second streams (25 fps video, variable-size AAC frames) through the packetisers into the real HLS segment generator - which batches about 100 ms of audio into one PES - reads every completed segment back and demultiplexes it with harness/tsdemux; the parameter sets are in the SDP or are filled in after the packetiser was built (in-band sets), and the streams sit at 0, at the 33-bit wrap and at 28.5 h of source time.",
     "note": "Trusted: TLC, TsOut.tla, the independent demultiplexer in harness/c09 (incl. its CRC-32/MPEG-2).",
     "technique": "TLA+ enumeration of the packetiser's case analysis; real muxer output demultiplexed independently; TLC trace validation against a TLA+ acceptor",
     "specs": ["tsout"],
